@@ -2,7 +2,9 @@
 
 Pure Python on flattened cell lists; nothing here imports the code under test.  A *zone* is a
 finite id present in the zones raster; a *valid* cell is one whose value is finite and different
-from the nodata value.  All functions take plain 2-D (3-D for the layered crosstab) numpy arrays.
+from the nodata value; a NaN, -inf or +inf value cell is therefore never valid: it belongs to no
+category / aggregate and is not part of the zone's valid-cell total (the percentage denominator).
+All functions take plain 2-D (3-D for the layered crosstab) numpy arrays.
 `None` in a returned table means "the property defines no value for this entry" (not asserted)."""
 import math
 import statistics
